@@ -140,7 +140,7 @@ class _NBSelector(selectors.DefaultSelector):
 
 
 class _Watchdog(KeyboardInterrupt):
-    """raised by SIGALRM inside a coroutine section that does not yield (KeyboardInterrupt subclasses are the only
+    """raised by SIGVTALRM inside a coroutine section that does not yield (KeyboardInterrupt subclasses are the only
     exceptions Task.__step re-raises out of the loop)"""
 
 
@@ -148,7 +148,7 @@ def _on_alarm(signum, frame):
     raise _Watchdog()
 
 
-STEP_SECONDS = 3.0
+STEP_SECONDS = 1.0      # CPU seconds of this process (ITIMER_VIRTUAL): machine load cannot trip it
 
 
 class StepLoop(asyncio.SelectorEventLoop):
@@ -163,13 +163,13 @@ class StepLoop(asyncio.SelectorEventLoop):
     def iterate(self):
         _aio_events._set_running_loop(self)
         self._thread_id = threading.get_ident()
-        old = signal.signal(signal.SIGALRM, _on_alarm)
-        signal.setitimer(signal.ITIMER_REAL, STEP_SECONDS)
+        old = signal.signal(signal.SIGVTALRM, _on_alarm)
+        signal.setitimer(signal.ITIMER_VIRTUAL, STEP_SECONDS)
         try:
             self._run_once()
         finally:
-            signal.setitimer(signal.ITIMER_REAL, 0)
-            signal.signal(signal.SIGALRM, old)
+            signal.setitimer(signal.ITIMER_VIRTUAL, 0)
+            signal.signal(signal.SIGVTALRM, old)
             self._thread_id = None
             _aio_events._set_running_loop(None)
 
